@@ -772,7 +772,18 @@ pub fn execute(sc: &Sc, ctx: &mut Ctx) -> Result<(), String> {
     }
     let sc2 = sc.clone();
     let b2 = bytes.clone();
-    let obs = on_thread(sc.stack_kib * 1024, move || decode(&sc2, &b2)).map_err(|e| format!("wire engine (C06) panicked outside a guarded call: {e}"))?;
+    let obs = match on_thread(sc.stack_kib * 1024, {
+        let (sc2, b2) = (sc2.clone(), b2.clone());
+        move || decode(&sc2, &b2)
+    }) {
+        // no address space for the giant stack here (ulimit -v, container limit): the run still
+        // happens, on the largest ordinary stack, and says so
+        Err(e) if e.starts_with("spawn:") && sc.stack_kib > 8192 => {
+            ctx.stats.probe("giant_stack_unavailable");
+            on_thread(8192 * 1024, move || decode(&sc2, &b2)).map_err(|e| format!("wire engine (C06) panicked outside a guarded call: {e}"))?
+        }
+        r => r.map_err(|e| format!("wire engine (C06) panicked outside a guarded call: {e}"))?,
+    };
     let rname = match &sc.receiver {
         Receiver::Native(n) => format!("native:{n}"),
         Receiver::Untyped { tys, .. } => format!("untyped:({})", tys.iter().map(show_type).collect::<Vec<_>>().join(",")),
